@@ -16,14 +16,14 @@ THEOREMS = [
     "daughters_closed", "daughters_closed_of_glue", "daughters_inv", "daughters_volume", "daughters_shape",
     "add_point_he", "add_point_pair_closed", "add_point_nodes", "divide5_he", "divide_faces_preserves_surface",
     "divide_faces_nodes", "cut_volume_caseA", "cut_volume_caseB", "side_partition", "target_halved", "type_preserved",
-    "ids_fresh", "ids_fresh_round", "counter_advance", "quat_matrix_orthogonal", "quat_matrix_orthogonal'",
+    "ids_fresh", "ids_fresh_round", "counter_advance", "quat_matrix_orthogonal", "quat_matrix_orthogonal_cols",
     "quat_maps_normal", "quat_norm_zero_iff", "quat_degenerate", "map_roundtrip", "identity_case_sound",
     "rank_injOn", "rebase_inv", "failure_leaves_population", "round_survivors", "run_events_as_modelled",
     "stage_order_as_modelled", "edge_plane_on_plane", "edge_plane_on_segment", "nonvacuous",
 ]
 GEN = ["Division", "RemeshConsts"]
 
-KNOWN_KEYS = {"delaunator": "delaunator-degenerate-input"}
+KNOWN_KEYS = {"delaunator": "delaunator-degenerate-input", "hang": "division-does-not-return"}
 
 
 def hexv(v):
@@ -80,7 +80,9 @@ class Runner:
     def crash(self):
         c = self.S.crashed
         key = None
-        if "delaunator" in c["stderr"]:
+        if c.get("hang"):
+            key = KNOWN_KEYS["hang"]
+        elif "delaunator" in c["stderr"]:
             key = KNOWN_KEYS["delaunator"]
         self.failures.append({"what": "real code ended abnormally on '%s' (rc=%s): %s" % (c["line"][:80], c["rc"], c["stderr"][-700:]),
                               "replay": c["replay"], "key": key, "crash": True})
@@ -163,6 +165,12 @@ class Runner:
                 self.count("daughters_reoriented_by_code")
                 if sorted(tuple(sorted(t)) for t in x["faces"]) != sorted(tuple(sorted(t)) for t in y["faces"]):
                     return "daughter %d: face sets differ" % (k + 1)
+            elif abs(unhex(x["kv"]["vol"])) < 1e-9 * self.scale ** 3:
+                # the sign of a volume that is zero up to rounding decides nothing: compare up to winding
+                self.count("daughters_zero_volume")
+                if sorted(tuple(sorted(t)) for t in x["faces"]) != sorted(tuple(sorted(t)) for t in y["faces"]):
+                    return "daughter %d: face sets differ" % (k + 1)
+                continue
             elif x["faces"] != y["faces"]:
                 d = [i for i in range(min(len(x["faces"]), len(y["faces"]))) if x["faces"][i] != y["faces"][i]][:1]
                 return "daughter %d: face lists differ at %s: impl=%s model=%s" % (k + 1, d, [x["faces"][i] for i in d], [y["faces"][i] for i in d])
@@ -256,6 +264,11 @@ class Runner:
         if self.dkind == "fan" and hyp.get("iface") != "true":
             # the fan over a polygon that does not bound the cut (plane through nodes) is not what divide_cell would hand over
             self.count("stage_oracle_skipped_fan_without_interface_condition")
+            return
+        if self.dkind == "fan" and min(abs(d["vol"]) for d in ds) < 1e-9 * self.scale ** 3:
+            # a fan over coinciding intersection points (plane touching the cell at a node): the real pipeline rejects this
+            # interface (division_exception in triangulate_division_interface), only the synthetic fan lets it through
+            self.count("stage_oracle_skipped_fan_degenerate")
             return
         self.count("stage_oracle_checked")
         for b in bad[:2]:
